@@ -88,6 +88,7 @@ def cond(p, tf, ff, *ops):
     Assumed.note("jax.lax.cond(p, tf, ff, *ops) = tf(*ops) if p else ff(*ops) (both branches traced)")
     if isinstance(p, bool):
         return tf(*ops) if p else ff(*ops)
+    engine().extra.setdefault("cond_calls", []).append({"pred": p, "operands": ops})
     a, b = tf(*ops), ff(*ops)
     from .jnp import where
 
